@@ -29,7 +29,7 @@ func scenarioReset() int {
 	g := sip.NewGen(shardSeed(run.Seed))
 	rounds := *flagCases
 	if rounds == 0 {
-		rounds = ev.Pick(40, 1500)
+		rounds = ev.Pick(150, 3000)
 	}
 	// a listener at every UA sent-by address for the response fallback
 	cl := map[int]*wire.TCPListener{}
@@ -157,15 +157,36 @@ func scenarioReset() int {
 			if sv.HasDef {
 				wire.SetHeader(m, "To", "<tel:+15550134>")
 			}
+			// half of the clients hang up in the same breath as they send (the proxy may see the end
+			// of the connection before its loop has even looked at the request), the others reset
+			// the connection once the request has reached the backend
+			atOnce := g.R.Intn(2) == 0
+			before := len(cl[u.Index].Conns())
 			conn.Send(m.Bytes(), id)
+			if atOnce {
+				conn.Close(g.R.Intn(2) == 0)
+			}
 			obs, ok := w.Net.WaitCase(id, func(o []*wire.Obs) bool { return len(o) >= 1 }, w.BarrierWait)
 			if !ok || obs[0].Msg == nil || !sv.BackendEndpointNames()[obs[0].Ep] {
+				if atOnce && !ok {
+					// a request whose connection is gone before it is looked at may be dropped; the proxy must live
+					if h := w.Health(); h != "" {
+						run.Violation("proxy died after a client sent a request and hung up at once", map[string]any{"health": h, "service": svc})
+						break
+					}
+					if !w.Barrier(wire.Path{UA: 0, Svc: svc, Proto: "udp"}) {
+						run.Violation("the proxy stopped relaying after a client sent a request and hung up at once", map[string]any{"service": svc})
+					}
+					run.Eval(fmt.Sprintf("client|hangup-at-once|dropped|svc%d", svc))
+					continue
+				}
 				run.Inconclusive(1)
 				conn.Close(false)
 				continue
 			}
-			before := len(cl[u.Index].Conns())
-			conn.Close(true)
+			if !atOnce {
+				conn.Close(true)
+			}
 			time.Sleep(5 * time.Millisecond)
 			dw := &dialogWorld{World: w}
 			rid := id + "x200"
@@ -191,13 +212,13 @@ func scenarioReset() int {
 					continue
 				}
 				okSteps++
-				run.Eval(fmt.Sprintf("client|reset|norecv|svc%d", svc))
+				run.Eval(fmt.Sprintf("client|reset|norecv|at-once=%v|svc%d", atOnce, svc))
 			} else {
 				if len(at) > 1 {
 					run.Violation("response for a client whose connection failed was delivered more than once", map[string]any{"service": svc, "seen_at": at})
 					continue
 				}
-				run.Eval(fmt.Sprintf("client|reset|stamped|svc%d", svc))
+				run.Eval(fmt.Sprintf("client|reset|stamped|at-once=%v|svc%d", atOnce, svc))
 			}
 			// the proxy keeps serving
 			if !w.Barrier(wire.Path{UA: 0, Svc: svc, Proto: "udp"}) {
